@@ -131,7 +131,7 @@ static int attrib(int kind, uint64_t seed, int index)
       for (i = 0; i < NF(SILKF); i++) { refs[nref].tag = "silk_mode"; refs[nref].base = offsetof(OpusEncoder, silk_mode); refs[nref++].f = &SILKF[i]; }
       for (i = 0; i < NF(CELTF); i++) if (CELTF[i].kind == 'I') { refs[nref].tag = "celt"; refs[nref].base = e->celt_enc_offset; refs[nref++].f = &CELTF[i]; }
    } else {
-      for (i = 0; i < NF(DECF); i++) if (DECF[i].kind == 'I') { refs[nref].tag = "dec"; refs[nref].base = 0; refs[nref++].f = &DECF[i]; }
+      for (i = 0; i < NF(DECF); i++) if (DECF[i].kind == 'I' || DECF[i].kind == 'A') { refs[nref].tag = "dec"; refs[nref].base = 0; refs[nref++].f = &DECF[i]; }
       for (i = 0; i < NF(SILKDF); i++) { refs[nref].tag = "DecControl"; refs[nref].base = offsetof(OpusDecoder, DecControl); refs[nref++].f = &SILKDF[i]; }
    }
    printf("A %s %llu %d %s cut=%d op=%d ", KNAME[kind], (unsigned long long)seed, index, c.cls, c.cut, d); op_print(stdout, &c, &c.ops[d]);
